@@ -13,6 +13,8 @@ Inductive vcase :=
        scraper = (items, (metric count, (0 ok | 1 partial | 2 error, failed))) *)
 | CProc (sig : Z) (ops : list (Z * (Z * (Z * bool)))) (obs : list Z)
     (* op = (items in, (0 forward | 1 error | 2 skip, (items out, next consumer error?))) *)
+| CPipe (sig : Z) (ops : list (Z * (Z * bool))) (obs : list Z)
+    (* obsconsumer: signal 0..3 (3 = profiles); op = (items offered, (items left after the downstream call, error?)) *)
 | CExp (cfg : list Z) (outs : list (Z * Z)) (ops : list (Z * list Z)) (obs : list Z) (gauges : list Z) (extra : list Z).
     (* cfg = [signal; queue; storage; items sizer; capacity; wait_for_result; qbatch?; qmin; qmax;
               batcher?; bmin; bmax; retry; tracing (spans recording)];  out = (0 ok|1 transient|2 permanent|3 partial|4 hang, k);
@@ -32,7 +34,8 @@ Definition universe : list counter :=
    ExpEnqFailed Traces; ExpEnqFailed Metrics; ExpEnqFailed Logs;
    SpanAcc Traces; SpanRef Traces; SpanAcc Metrics; SpanRef Metrics; SpanAcc Logs; SpanRef Logs;
    SpanScraped Metrics; SpanErrored Metrics; SpanScraped Logs; SpanErrored Logs;
-   SpanSent Traces; SpanSent Metrics; SpanSent Logs; SpanFailed Traces; SpanFailed Metrics; SpanFailed Logs].
+   SpanSent Traces; SpanSent Metrics; SpanSent Logs; SpanFailed Traces; SpanFailed Metrics; SpanFailed Logs;
+   PipeOk Traces; PipeFail Traces; PipeOk Metrics; PipeFail Metrics; PipeOk Logs; PipeFail Logs; PipeOk Profiles; PipeFail Profiles].
 
 Definition vec (l : ledger) : list Z := map (fun c => lget c l) universe.
 
@@ -53,6 +56,9 @@ Definition proc_ops (ops : list (Z * (Z * (Z * bool)))) : list proc_op :=
   map (fun p => let '(nin, (rk, (nout, ne))) := p in
                 {| po_in := nin;
                    po_res := if rk =? 0 then PForward nout ne else if rk =? 1 then PError else PSkip |}) ops.
+
+Definition pipe_ops (ops : list (Z * (Z * bool))) : list pipe_op :=
+  map (fun p => {| pc_n := fst p; pc_after := fst (snd p); pc_err := snd (snd p) |}) ops.
 
 Definition zb (z : Z) : bool := negb (z =? 0).
 
@@ -87,12 +93,13 @@ Definition model_out (c : vcase) : list Z * (list Z * list Z) :=
   | CRecv rc ops _ => (vec (recv_run (recv_ops rc ops)), ([], []))
   | CScr rc k ops _ => (vec (scr_run rc (kind_of_Z k) (scr_ops ops)), ([], []))
   | CProc s ops _ => (vec (proc_run (sig_of_Z s) (proc_ops ops)), ([], []))
+  | CPipe sg ops _ => (vec (pipe_run (sig_of_Z sg) (pipe_ops ops)), ([], []))
   | CExp cfg outs ops _ _ _ => exp_out cfg outs ops
   end.
 
 Definition check_case (c : vcase) : bool :=
   match c with
-  | CRecv _ _ obs | CScr _ _ _ obs | CProc _ _ obs => zlist_eqb (fst (model_out c)) obs
+  | CRecv _ _ obs | CScr _ _ _ obs | CProc _ _ obs | CPipe _ _ obs => zlist_eqb (fst (model_out c)) obs
   | CExp _ _ _ obs g x =>
       let '(v, (mg, mx)) := model_out c in
       zlist_eqb v obs && zlist_eqb mg g && zlist_eqb mx x
